@@ -162,6 +162,8 @@ class SymWalker:
                     v = v[1] if e["f"] == 0 else ("ovfflag",) + v[2:]
                 elif isinstance(v, tuple) and v and v[0] == "optval" and pending == "Some":
                     v = v[1]
+                elif isinstance(v, tuple) and v and v[0] == "tuple" and pending is None and e["f"] < len(v[1]):
+                    v = v[1][e["f"]]
                 else:
                     v = Opaque(f"field{e['f']}")
                 pending = None
@@ -224,6 +226,9 @@ class SymWalker:
             return Opaque("cast")
         if k == "ref":
             return self.place_val(env, rv["place"])
+        if k == "agg" and rv.get("ak") == "tuple":
+            # a tuple built and taken apart again (e.g. the (start, stop) pair returned by an inlined helper)
+            return ("tuple", tuple(self.op_val(env, o) for o in rv["ops"]))
         return Opaque(k)
 
     # ---- exploration ---------------------------------------------------------------------
